@@ -1515,8 +1515,77 @@ func (r *Run) drain() *Violation {
 
 // ---- fixpoint (C15) ------------------------------------------------------------------------
 
+// partialFixpoint: with the history's live resources still in place (live subscriptions on
+// deleted topics, deleted topics still named by dead-letter policies, ... - rows the jobs must
+// leave alone), the six delete-only jobs run in rounds with a small batch size until a whole
+// round deletes nothing; then the same jobs run once with an unbounded batch. The clock stands
+// still throughout (no SQL latency tick), so what is eligible does not change: anything the
+// unbounded round still reclaims was dead and left behind by jobs that had stopped making
+// progress ("batch sizes from 1 upward ... no job stays stuck").
+func (r *Run) partialFixpoint() *Violation {
+	minAge := r.maxMinAge
+	if minAge < time.Second {
+		minAge = time.Second
+	}
+	time.Sleep(minAge + time.Second)
+	r.Sim.Settle()
+	tick := r.Sim.tick
+	r.Sim.tick = 0
+	defer func() { r.Sim.tick = tick }()
+	rows, err := r.rowCounts()
+	if err != nil {
+		panic("HARNESS: " + err.Error())
+	}
+	total := 0
+	for _, n := range rows {
+		total += n
+	}
+	maxDel := 1 + r.T.Intn(3)
+	rounds := total/maxDel + total + 8
+	start := time.Now()
+	settled := false
+	for round := 0; round < rounds; round++ {
+		deleted := 0
+		order := []int{0, 1, 2, 3, 4, 5}
+		for i := len(order) - 1; i > 0; i-- {
+			j := r.T.Intn(i + 1)
+			order[i], order[j] = order[j], order[i]
+		}
+		for _, j := range order {
+			n, _, _ := services.VerifPruneRunOnce(context.Background(), r.findJob(jobNames[j]), r.W.Client, minAge, maxDel)
+			deleted += n
+		}
+		if deleted == 0 {
+			settled = true
+			r.ev("partial fixpoint: batch size %d settled after %d rounds", maxDel, round+1)
+			break
+		}
+	}
+	if !settled {
+		return nil // (bounded number of rounds used up: no verdict)
+	}
+	var more []string
+	for j := 0; j < 6; j++ {
+		n, _, _ := services.VerifPruneRunOnce(context.Background(), r.findJob(jobNames[j]), r.W.Client, minAge, 1000000)
+		if n > 0 {
+			more = append(more, fmt.Sprintf("%s=%d", jobNames[j], n))
+		}
+	}
+	if !time.Now().Equal(start) {
+		panic("HARNESS: the clock moved during the partial fixpoint")
+	}
+	r.stat("partial_fixpoint_checked")
+	if len(more) > 0 {
+		return viol("C15", "stuck_small_batches", "with batch size %d the jobs stopped deleting (a whole round of all six deleted nothing) although dead rows were left: the same jobs with an unbounded batch, at the same instant, then reclaimed %s", maxDel, strings.Join(more, " "))
+	}
+	return nil
+}
+
 func (r *Run) fixpoint() *Violation {
 	r.ev("---- fixpoint")
+	if v := r.partialFixpoint(); v != nil {
+		return v
+	}
 	// delete everything through the API
 	for _, s := range append([]*MSub(nil), r.M.AllSubs...) {
 		if s.Live {
